@@ -8,7 +8,7 @@ import re
 from ..cfg import build_cfg, calls_in, node_calls
 from ..core import Ctx, property_info, rule
 from ..model import AnalysisError, FuncInfo, walk_no_nested
-from ..q import A, L, asrc, call_name_of, family, flows, is_self_attr, kwarg, names_in, return_values, stores, unparse
+from ..q import A, L, asrc, call_name_of, control_deps, family, flows, none_cond, is_self_attr, kwarg, names_in, return_values, stores, unparse
 
 SCOPE = ("xsdata.codegen", "xsdata.formats.dataclass.generator", "xsdata.formats.dataclass.filters", "xsdata.formats.mixins", "xsdata.models.xsd", "xsdata.models.config",
          "xsdata.models.wsdl", "xsdata.models.dtd", "xsdata.models.mixins", "xsdata.utils.graphs", "xsdata.utils.collections", "xsdata.utils.namespaces", "xsdata.utils.package",
@@ -496,6 +496,10 @@ def routes_agree(ctx: Ctx) -> None:
     rep = [c for c in walk_no_nested(gen.node) if isinstance(c, ast.Call) and call_name_of(c) == "replace" and [unparse(a) for a in c.args] == ["'__'", "'.'"]]
     comps = [x for x in walk_no_nested(gen.node) if isinstance(x, ast.DictComp) and any(r in list(ast.walk(x.key)) for r in rep)]
     ok = bool(comps) and all(len(x.generators) == 1 and [A(unparse(i)) for i in x.generators[0].ifs] == [A(f"{unparse(x.value)} is not None")] for x in comps)
+    if not comps:
+        # loop form: params[key.replace("__", ".")] = value  under  `value is not None` (and nothing else)
+        sts = [st for st, tgt, v in stores(gen.node) if isinstance(tgt, ast.Subscript) and any(r in list(ast.walk(tgt.slice)) for r in rep)]
+        ok = bool(sts) and all({(t, pol) for t, pol, _ in control_deps(gen, st)} <= {("_isnotNone", True), ("_isNone", False)} and none_cond(control_deps(gen, st), want_none=False) for st in sts)
     ctx.ob("cli.generate maps option names back with k.replace('__', '.') and drops unset (None) options", ok, at=gen, construct="option mapping",
            msg="flags and config file disagree")
     gg = build_cfg(gen.node)
